@@ -192,6 +192,25 @@ def check(run):
     run.trust('os/shutil/open/pandas write primitives are exactly those listed in sa/effects.py')
 
 
+def _other_objects_attribute(p, rt, f, tgt):
+    """the attribute called `regenerate` that is stored belongs to an object of a class that has nothing to do with ReferenceTest
+    (a record of command-line switches with a field of the same name)"""
+    x = tgt if isinstance(tgt, ast.Attribute) else None
+    if x is None or not isinstance(x.value, ast.Name):
+        return False
+    family = set(p.mro(rt.qn)) | set(p.subclasses(rt.qn)) | {rt.qn}
+
+    def unrelated(cq):
+        return cq in p.classes and cq not in family and not (set(p.mro(cq)) & family)
+    nm = x.value.id
+    if nm in ('self', 'cls') and f.cls is not None and f.posparams[:1] == [nm]:
+        return unrelated(f.cls.qn)
+    ks = p.local_types(f).get(nm)
+    if ks and all(unrelated(k) for k in ks):
+        return True
+    return False
+
+
 def whosets(run, p, rt):
     run.rule('C10-WHOSETS', 'the regeneration table is stored into only by set_regeneration, and set_regeneration is called only '
                             'from functions that read the command line (argv / pytest getoption)')
@@ -215,7 +234,7 @@ def whosets(run, p, rt):
             if isinstance(n, ast.Call) and isinstance(n.func, ast.Name) and n.func.id == 'setattr' and len(n.args) >= 2 \
                     and isinstance(n.args[1], ast.Constant) and n.args[1].value == 'regenerate':
                 tgt = n
-            if tgt is not None:
+            if tgt is not None and not _other_objects_attribute(p, rt, f, tgt):
                 stores.append((f, n))
     # class-level assignments other than the initial empty table
     for c in p.classes.values():
